@@ -169,7 +169,32 @@ pub fn execute(w: &Work) -> String {
                 Geometry::MultiPolygon(p) => format!("{:?}", p.simplify(1.0)),
                 _ => String::new(),
             };
-            format!("{:?}|{:?}|{:?}|{}", ga.relate(&gb), ga.convex_hull(), gb.convex_hull(), simp)
+            // further collection-producing algorithms on the same operands: clip, boolean_op, monotone subdivision,
+            // validation errors, densify, Visvalingam-Whyatt, and the rayon iterators of the Multi* types (merged in input order)
+            let more = {
+                use geo::algorithm::bool_ops::OpType;
+                use geo::algorithm::monotone::MonotonicPolygons;
+                use geo::algorithm::validation::Validation;
+                use geo::line_measures::Densify;
+                use geo::{BooleanOps, Euclidean, MultiLineString, SimplifyVw, SimplifyVwPreserve};
+                use rayon::prelude::*;
+                let mp = |g: &Geometry<f64>| match g { Geometry::Polygon(p) => MultiPolygon::new(vec![p.clone()]), Geometry::MultiPolygon(m) => m.clone(), _ => MultiPolygon::new(vec![]) };
+                let (ma, mb) = (mp(&ga), mp(&gb));
+                let lines = MultiLineString::new(mb.0.iter().map(|p| p.exterior().clone()).collect());
+                let par_polys: Vec<String> = ma.par_iter().map(|p| format!("{:?}", p.exterior().0.first())).collect();
+                let par_lines: Vec<usize> = lines.par_iter().map(|l| l.0.len()).collect();
+                let par_pts: Vec<String> = geo::MultiPoint::new(ma.0.iter().flat_map(|p| p.exterior().points()).collect()).par_iter().map(|p| format!("{:?}", p)).collect();
+                let seq_polys: Vec<String> = ma.iter().map(|p| format!("{:?}", p.exterior().0.first())).collect();
+                let order_kept = par_polys == seq_polys && par_lines == lines.iter().map(|l| l.0.len()).collect::<Vec<_>>();
+                format!(
+                    "{:?}|{:?}|{:?}|{:?}|{:?}|{:?}|{:?}|{:?}|{:?}|{:?}|{}",
+                    ma.clip(&lines, false), ma.clip(&lines, true), ma.boolean_op(&mb, OpType::Xor),
+                    MonotonicPolygons::from(ma.clone()).subdivisions().iter().map(|m| m.clone().into_polygon()).collect::<Vec<_>>(),
+                    ma.validation_errors(), Euclidean.densify(&ma, 1.5), ma.simplify_vw(0.5), mb.simplify_vw_preserve(0.5),
+                    par_pts, par_polys, if order_kept { "par-order-kept" } else { "PAR-ORDER-CHANGED" }
+                )
+            };
+            format!("{:?}|{:?}|{:?}|{}|{}", ga.relate(&gb), ga.convex_hull(), gb.convex_hull(), simp, more)
         }
     }
 }
@@ -304,6 +329,9 @@ impl Property for C20 {
                 return;
             }
         };
+        if name == "Misc" {
+            obs.expect(first.ends_with("par-order-kept"), "Misc|rayon-iterator-reorders-members", || format!("{first}; work {:?}", Self::show(c)));
+        }
         if name == "Outliers" {
             obs.expect(first.ends_with("|same-as-fresh"), "Outliers|history-dependent", || format!("reused PreparedDetector vs fresh ones: {first}; work {:?}", Self::show(c)));
         }
